@@ -43,7 +43,7 @@ CFGS = {
 }
 BASE_ARGS = ["--log=root.thres:critical"]
 # violation classes that the oracle attributes to a cause visible in the scenario's own operations (no isolated re-run needed)
-CLASSIFIED = {"C13:livelock:repeated-veto:C",
+CLASSIFIED = {"C13:livelock:repeated-veto:C", "C13:start-date-not-latest-pred-finish:zero-byte-comm-started-before-assignment",
               "C13:never-starts:dependency-added-after-predecessor-finished", "C13:never-starts:last-dependency-removed-while-vetoed",
               "C13:never-starts:zero-byte-comm-started-before-assignment"}
 
@@ -278,6 +278,17 @@ host e2 1
 start e1
 @1 run 1.0
 @1 disk i1 2
+E
+""",
+    "known-zero-comm-late-start": """S known-zero-comm-late-start T
+new e E 1
+new c C 0
+dep e c
+host e 0
+dst c 1
+veto c src c 2
+start e
+start c
 E
 """,
     "known-zero-comm": """S known-zero-comm M
